@@ -53,12 +53,14 @@ TIMEOUT  = {'quick': 420, 'thorough': 3400}
 REQUIRED = {'tasks_judged': 400, 'set:fault_hits': 8, 'second_wave_ok': 50,
             'set:final_states': 3}
 
+REAL_FAULTS = ['missing_input', 'missing_output']
 POINTS = ['tmgr_sched', 'tmgr_stagein', 'agent_stagein', 'agent_sched',
           'exec_find_launcher', 'exec_script', 'agent_stageout',
           'tmgr_stageout']
 BULKS  = ['work:agent_stagein', 'work:agent_stageout', 'work:tmgr_stagein']
 FATES  = ['ok', 'ok', 'ok', 'exit', 'exit', 'no_launcher', 'unfittable',
-          'cancel_early', 'cancel_run', 'timeout', 'ok_staged'] + \
+          'cancel_early', 'cancel_run', 'timeout', 'ok_staged',
+          'missing_input', 'missing_output'] + \
          ['poison:' + p for p in POINTS] + BULKS
 
 
@@ -89,6 +91,16 @@ def describe(t, root):
         kw['ranks'] = 2
     elif fate == 'unfittable':
         kw['cores_per_rank'] = 64
+    elif fate == 'missing_input':
+        # real fault: the client side file to transfer does not exist
+        kw['input_staging'] = [{'source': 'client:///nope.%s' % t['uid'],
+                                'target': 'task:///in.%s' % t['uid'],
+                                'action': rp.TRANSFER}]
+    elif fate == 'missing_output':
+        # real fault: the task does not produce the file to fetch
+        kw['output_staging'] = [{'source': 'task:///nope.%s' % t['uid'],
+                                 'target': 'client:///out.%s' % t['uid'],
+                                 'action': rp.TRANSFER}]
     elif fate in ('ok_staged', 'poison:tmgr_stagein', 'poison:agent_stagein',
                   'poison:tmgr_stageout', 'work:tmgr_stagein'):
         # staging directives make the staging routines run for this task
@@ -226,6 +238,8 @@ def judge(case, res, mp, by_uid, seen, ok1, tasks2, ok2):
             viol('final-state-announced-twice', '%s: %s' % (uid, finals))
 
         st, ec, exc = task.state, task.exit_code, task.exception
+        if fate in ('missing_input', 'missing_output'):
+            mp.hits.add('real:' + fate)
         requested = fate in ('cancel_early', 'cancel_run', 'timeout')
 
         if fate in ('ok', 'ok_staged'):
@@ -245,7 +259,7 @@ def judge(case, res, mp, by_uid, seen, ok1, tasks2, ok2):
 
         if (st, ec) not in truth and not (st == truth[0][0] and
                                           truth[0][1] is None):
-            if ec == 126 and 'Text file busy' in (task.stderr or ''):
+            if 'Text file busy' in (task.stderr or '') + str(exc):
                 # harness artifact: all components share one process here, so a
                 # concurrent fork (stager running `cp`) can hold the freshly
                 # written script open when it is exec'ed (ETXTBSY); in a pilot
